@@ -41,7 +41,7 @@ def stage(run):
         if missing or not wr.ok:
             raise vlib.InfraError("C13 (b)-(d) spec mutations not rejected by TLC: %s" % (missing or wr.error))
         run.notes.append("C13 (b)-(d) spec mutations rejected: " + ", ".join(C13_WEAK))
-    enum = [wc.fix_maps(s) for s in run.generate("Weights", "Weights_Gen.cfg", workers=2, timeout=3600, heap="4g")]
+    enum = [wc.fix_maps(s) for s in run.generate("Weights", "Weights_GenC13.cfg", workers=2, timeout=3600, heap="4g")]
     if not enum:
         raise vlib.InfraError("TLC generated no scenarios")
     enum = rng.sample(enum, min(tier["replay"], len(enum)))
